@@ -436,6 +436,11 @@ def execute(case, scratch):
                                                     (lay['sign'] or 'plain') + ('+neg' if lay['negate_setting'] else ''), f['class'], f['position']))
             count['fired.' + f['class']] = count.get('fired.' + f['class'], 0) + 1
             log.append(['fault', f['class'], util.digest(res)])
+            if 'exception' in res and case.get('stderr_broken') and ('Broken pipe' in res['exception'] or 'Errno 32' in res['exception']):
+                # nobody reads stderr and the reader wanted to say something there: it may die of that, loudly (a command that carries on
+                # with fewer rows is seen by C11 / C08 at command level)
+                count['died_of_broken_stderr'] = count.get('died_of_broken_stderr', 0) + 1
+                continue
             if 'exception' in res:
                 violations.append({'invariant': 'ISO', 'signature': {'class': f['class'], 'what': 'exception', 'delimiter': delim},
                                    'witness': 'one damaged row (%s) made the whole parse raise %s' % (f['class'], res['exception'][:300]),
